@@ -175,8 +175,11 @@ func (p *Parser) GenerateBaseCode() (code string, err error) {
 		}
 
 		// Insert markers.
-		util.InsertComment(p.file, entry.marker, minPos)
-		util.InsertComment(p.file, entry.marker, maxPos)
+		// Each marker must stay a comment group of its own: when the interface body is
+		// shorter than the marker text, or two interfaces are close to each other, a marker
+		// must not be merged into the group of the previous marker.
+		util.InsertCommentGroup(p.file, entry.marker, minPos)
+		util.InsertCommentGroup(p.file, entry.marker, maxPos)
 	}
 
 	var buf bytes.Buffer
